@@ -115,6 +115,16 @@ func (s Step) Hex(k string) []byte {
 	return buf[:len(b)]
 }
 
+// Reuse overwrites a buffer the adapter passed to a call that has returned: its owner uses it for something else now.
+// Whatever a stateful object still needs of an argument it must have copied (hash.Hash.Write "must not retain p").
+func Reuse(bs ...[]byte) {
+	for _, b := range bs {
+		for j := range b {
+			b[j] = 0xA5
+		}
+	}
+}
+
 // Roomy returns a copy of b as a receiver of a message usually holds it: a slice of a larger receive buffer (room bytes of
 // spare capacity behind it, filled with 0xEE). A callee that appends to a sub-slice of its argument writes over the rest
 // of the argument - or behind it - only when that capacity exists.
@@ -143,9 +153,14 @@ type handedKey struct {
 }
 
 type handedBuf struct {
-	n   int
-	buf []byte
+	n      int
+	buf    []byte
+	reused bool
 }
+
+var secondPass bool
+var visited = map[uintptr]bool{}
+var curStepObj uintptr
 
 var handed = map[handedKey]handedBuf{}
 var handedSeen = map[handedKey]int{}
@@ -232,11 +247,14 @@ func RunTrace(t *Trace, env *Env) (mm *Mismatch, steps int) {
 	CurStep = 0
 	clear(handed)
 	clear(handedSeen)
+	secondPass, curStepObj = false, 0
 	mm = a(t, env)
 	if mm == nil && trackInputs && len(handed) > 0 && !noSecondPass[t.Fam] {
 		// once more, on the very same input buffers
 		CurStep = 0
 		clear(handedSeen)
+		secondPass, curStepObj = true, 0
+		clear(visited)
 		if mm = a(t, env); mm != nil {
 			mm.Note = "second use of the same input buffers (the first use of these bytes conformed): " + mm.Note
 		}
